@@ -52,7 +52,8 @@ def safe_run(prop, plan):
     try:
         res = prop.run(plan)
         for k, v in applied.items():
-            core.bump(res["probes"], f"knob:{k.rsplit('.', 1)[-1]}:" + ("lowered" if v <= 20011 else "shipped"))
+            core.bump(res["probes"], f"knob:{k.rsplit('.', 1)[-1].rsplit(':', 1)[-1]}:" + (
+                "lowered" if v <= 20011 else "shipped"))
         return res
     except core.HarnessError:
         raise
@@ -314,10 +315,12 @@ def write_replay(pid, plan, violation, digest, meta):
 
 
 def _knobs_found():
-    from .knobs import discover
+    from .knobs import discover, discover_literals
 
-    return [f"{m}.{n}={v}" for m, n, v in discover()] or [
-        "(none: no module-level size/chunk/buffer constants in the tree; knob randomisation idle)"]
+    return ([f"{m}.{n}={v}" for m, n, v in discover()] + [
+        f"{qn}: literal {c}" for qn, _, lits in discover_literals() for c in lits]) or [
+        "(none: no module-level size/chunk/buffer constants and no power-of-two size literals in the "
+        "functions of the modules under test; knob randomisation idle)"]
 
 
 def write_evidence(prop, tier, master, total, n_viol, known_seen, extra=None):
